@@ -4,6 +4,15 @@ import json, os, sys
 HERE = os.path.dirname(os.path.dirname(os.path.abspath(__file__)))
 
 CHECKS = {
+ "C06": dict(level="other", design="4.6",
+   technique="object-identity typestate interpretation of the vtable slot functions (effect summaries per slot, both families) and of every member of any under all presence/type/alias scenarios with exceptional successors; writer/vtable/reader agreement table over 11 payload types; guard-dominance rules for the casts",
+   text="Decides structural necessary conditions: the functions stored in each vtable slot (vtable_stack and vtable_dynamic) have the slot's effect summary with every object owned by exactly "
+        "one storage and destroyed at most once; every member of any, simulated under {this empty/holds A} x {rhs empty/holds A/holds B/is *this} with calls into its own members, temporaries "
+        "and their destructors, and a throw at the copy slot / payload constructor, keeps vtable-null <=> storage-dead and vtable type == stored type at every normal and exceptional exit, never "
+        "constructs over a live object nor uses a dead one, has the presence/type postcondition of copy/move/swap/reset/assignment, and leaves *this untouched when an assignment throws; "
+        "requires_allocation, construct(), vtable_for_type() (family and slot order) and cast<T>/cast<const T> agree for payloads on both sides of the in-place threshold (size, alignment, "
+        "nothrow move); pointer any_cast hands out storage only after the null and typeid(T) tests, reference forms go through check_any_cast. Equality of stored values is NOT decided.",
+   note="Trusts the interpreters in sa/rules/c06.py and clang's AST; payload constructors/destructors are assumed to do what their names say; type_info identity across shared libraries is out of scope."),
  "C03": dict(level="other", design="4.3",
    technique="path-sensitive typestate (canonical last block) over every instantiated member for 4 block types, exact constant folding of the bit/block helper formulas over all bit offsets, linear bit-displacement/coverage analysis of the shift loops, guard entailment for at()/empty-buffer accesses, size/block-count agreement, promotion-decided comparison lint",
    text="Decides structural necessary conditions on every instantiated member of xdynamic_bitset_base/xdynamic_bitset/xdynamic_bitset_view for uint8/16/32/64 blocks: "
